@@ -1,7 +1,7 @@
 \* negative control = the pinned should_sign: the already-attested comparison never matches (replay signs again)
 SPECIFICATION MCSpec
-CONSTANTS AlreadyChecked = FALSE PkPerAuthority = TRUE CheckSubject = TRUE CheckPermission = TRUE Window = 300 RespCap = 10 FitAll = 8
+CONSTANTS AlreadyChecked = FALSE PkPerAuthority = TRUE CheckSubject = TRUE CheckPermission = TRUE CommitBeforeSend = TRUE Window = 300 RespCap = 10 FitAll = 8
   Regs = {1} Senders = {1} TokIdx = {2} MdIdx = {2} AttIdx = {1} MissIdx = {1}
-  Ticks = {} OwnerPeers = {} KnownVals = {} AttSend = {} RegFirst = TRUE
-  MaxReg = 1 MaxMsg = 2 MaxTick = 0 MaxOwn = 0
+  Ticks = {} OwnerPeers = {} KnownVals = {} AttSend = {} RegFirst = TRUE FaultTabs = {}
+  MaxReg = 1 MaxMsg = 2 MaxTick = 0 MaxOwn = 0 MaxFault = 0
 INVARIANT SignsOnlyConsented
